@@ -43,7 +43,67 @@ func (m *Model) isOnDemoteInvocation(in ssa.Instruction) bool {
 			}
 		}
 	}
+	// a call of a library helper every path through which invokes the callback (unless none is registered)
+	if call, ok := in.(*ssa.Call); ok {
+		if g := call.Call.StaticCallee(); g != nil && m.isLib(g) && m.alwaysNotifies(g) {
+			return true
+		}
+	}
 	return false
+}
+
+// alwaysNotifies: every path from f's entry to a return invokes the OnDemote value (directly or
+// by go), except where the callback is nil.
+func (m *Model) alwaysNotifies(f *ssa.Function) bool {
+	if v, ok := m.notifyMemo[f]; ok {
+		return v
+	}
+	if m.notifyMemo == nil {
+		m.notifyMemo = map[*ssa.Function]bool{}
+	}
+	m.notifyMemo[f] = false
+	if f.Blocks == nil || len(f.Blocks[0].Instrs) == 0 {
+		return false
+	}
+	direct := func(in ssa.Instruction) bool {
+		if m.invokesFieldValue(in, m.OnDemote) {
+			return true
+		}
+		if g, ok := in.(*ssa.Go); ok {
+			for _, t := range m.funcValueTargets(g.Call.Value) {
+				hit := false
+				eachInstr(t, func(x ssa.Instruction) {
+					if m.invokesFieldValue(x, m.OnDemote) {
+						hit = true
+					}
+				})
+				if hit {
+					return true
+				}
+			}
+		}
+		return false
+	}
+	any := false
+	eachInstr(f, func(in ssa.Instruction) {
+		if direct(in) {
+			any = true
+		}
+	})
+	if !any {
+		return false
+	}
+	skip := func(b *ssa.BasicBlock, i int) bool {
+		l, ok := m.edgeLit(b, i)
+		return ok && l.Truth && l.S.Op == "bin" && l.S.Name == "==" && (m.symIsFieldValue(l.S.Args[0], m.OnDemote) || m.symIsFieldValue(l.S.Args[1], m.OnDemote)) && symMentions(l.S, "nil")
+	}
+	first := f.Blocks[0].Instrs[0]
+	ok := direct(first)
+	if !ok {
+		ok, _ = mustFollowExit(first, direct, skip, nil)
+	}
+	m.notifyMemo[f] = ok
+	return ok
 }
 
 // claimLoadInClearingHold: v is a claim load made under the election write lock in a
@@ -259,7 +319,6 @@ func checkC08(c *Ctx) {
 	var follow func(f *ssa.Function, at ssa.Instruction, chain []string, depth int)
 	visited := map[string]bool{}
 	follow = func(f *ssa.Function, at ssa.Instruction, chain []string, depth int) {
-		isStop := containsFn(m.StopUnits, f)
 		skip := func(b *ssa.BasicBlock, i int) bool {
 			l, ok := m.edgeLit(b, i)
 			if !ok {
@@ -275,25 +334,14 @@ func checkC08(c *Ctx) {
 			}
 			return false
 		}
-		okExit := func(r *ssa.Return) bool {
-			if !isStop || len(r.Results) == 0 {
-				return false
-			}
-			// a non-nil error return of a stop unit (unsuccessful StopWithContext is exempt)
-			v := returnValue(r, len(r.Results)-1)
-			if !isErrorType(v.Type()) {
-				return false
-			}
-			if k, ok := v.(*ssa.Const); ok && k.Value == nil {
-				return false
-			}
-			return true
-		}
+		// no exit is exempt: a stop call that gives up (error return) has cleared the claim all the
+		// same, and no later Stop reports it
+		var okExit func(r *ssa.Return) bool
 		ok, exit := mustFollowExit(at, m.isOnDemoteInvocation, skip, okExit)
 		key := strings.Join(append(append([]string{}, chain...), shortFn(f)), " <- ")
 		if ok {
 			nSites++
-			c.ok("R2", "demotion notified: "+key, at, "every path from here to the exit of %s invokes OnDemote (skips: callback nil, claim already false%s)", shortFn(f), map[bool]string{true: ", error return of the stop unit", false: ""}[isStop])
+			c.ok("R2", "demotion notified: "+key, at, "every path from here to the exit of %s invokes OnDemote (skips: callback nil, claim already false)", shortFn(f))
 			return
 		}
 		// the obligation moves to the callers
